@@ -92,6 +92,7 @@ def body_text(body, attr):
         "nested_trailing": f"#[{a}(owned(i32,), ref)]", "nested_trailing2": f"#[{a}(owned(i32,),)]",
         "fmt_variant": f'#[{a}("{{_variant}}")]', "fmt_variant_wrap": f'#[{a}("[{{_variant}}] {{_variant}}")]',
         "types_nocomma": f"#[{a}(i32 u8)]", "forms_nocomma": f"#[{a}(owned(i32) ref_mut u8)]",
+        "path_global": f"#[{a}(::owned)]", "path_call": f"#[{a}(forward::all(x), ignore::y)]", "path_generic": f"#[{a}(ignore<T>, forward::<u8>)]",
         "word_repr": f"#[{a}(repr)]", "word_forward": f"#[{a}(forward)]", "word_skip": f"#[{a}(skip)]",
     }[body]
 
